@@ -91,6 +91,23 @@ fn main() {
                 }
             }
         }
+        // development aid: print scenario <index> of a check and what evaluating it reports
+        Some("gen") => {
+            let id = args.get(2).cloned().unwrap_or_default();
+            let index: u64 = args.get(3).and_then(|s| s.parse().ok()).unwrap_or(0);
+            let tier = if args.get(4).map(|s| s.as_str()) == Some("thorough") { Tier::Thorough } else { Tier::Quick };
+            match registry(&id) {
+                Some(c) => {
+                    let scn = c.generate(seed, index, tier);
+                    let t = std::time::Instant::now();
+                    let rep = c.evaluate(&scn);
+                    env.say(&serde_json::to_string_pretty(&scn).unwrap());
+                    env.say(&format!("runs={} events={} nontrivial={} violations={:?} probes={:?} wall={:?}", rep.runs, rep.events, rep.nontrivial, rep.violations.iter().map(|v| v.sig.clone()).collect::<Vec<_>>(), rep.probes, t.elapsed()));
+                    0
+                }
+                None => 2,
+            }
+        }
         Some("gen-mirror") => {
             let prop = args.get(2).cloned().unwrap_or_default();
             let n: u64 = args.get(3).and_then(|s| s.parse().ok()).unwrap_or(10);
